@@ -589,6 +589,7 @@ class Replay:
             for r in self.src:
                 if r['attached'] and r['dt'] == cd:
                     r['attached'] = False
+                    r['replaced'] = True
             self.tg.append(rec)
             self.src.append(srec)
             if via == 'w':
@@ -912,6 +913,57 @@ class Replay:
         return [f'{d}{n}' for d in ('x', 'y')
                 for n in range(1, self.emitted[d] + 1) if (d, n) not in have]
 
+    def monitor_quiet(self):
+        """nothing is in flight, no target is blocked and every inbound
+        stream is redirected: what the emitter wrote has arrived"""
+        if not self.hasB or self.cut or self.failed or \
+                self.wait_task is not None:
+            return
+        last = {}
+        for rec in self.tg:
+            last[rec['dt']] = rec
+        for lab in self.log:
+            if lab[0] == 'redirb' and lab[2] == 'none':
+                last[lab[1]] = None
+        if any(last.get(d) is None for d in self.k['InDT']):
+            return                  # an unredirected stream may hold the rest
+        if any(r['kind'] in ('null', 'proc') for r in self.tg):
+            return                  # not seen / may have been unlinked by C
+        have = set()
+        for rec in self.tg:
+            got = self.target_got(rec)
+            if got is not None:
+                have |= {(t, n) for t, n in got}
+        for tag in ('x', 'y'):
+            have |= {(t, n) for t, n in self.app[tag]}
+        if self.K is not None:
+            have |= {(t, n) for _c, t, n in self.K.got}
+        miss = [f'{d}{n}' for d in ('x', 'y')
+                for n in range(1, self.emitted[d] + 1) if (d, n) not in have]
+        if miss:
+            self.note('nothing-stuck', f'nothing is in flight and no target '
+                                       f'is blocked, but {miss} have not '
+                                       f'been delivered')
+
+    def monitor_drain_quiet(self):
+        """every source of a stream has ended and its data was sent: a
+        drain() on that stream has returned"""
+        if self.cut or self.failed:
+            return
+        for d, t in self.drain_tasks.items():
+            if t.done():
+                continue
+            recs = [r for r in self.src if r['dt'] == d]
+            if any(r['kind'] == 'proc' for r in recs):
+                continue
+            if all(r['eof'] or r.get('replaced') for r in recs) and \
+                    self.C.channel.get_write_buffer_size() == 0:
+                self.loop.run_until_idle()
+                if not t.done():
+                    self.note('waiters-resolve',
+                              f'drain() of {d} still pending although every '
+                              f'source has ended and everything was sent')
+
     def monitor_end(self):
         """after the closing phase: nothing is stuck, every waiter resolved,
         EOF where it was asked for"""
@@ -1128,6 +1180,9 @@ class Replay:
             self.log.append(lab)
             if self.failed:
                 break
+            if pred is None:        # a fixed schedule: the monitors only
+                self.steps_done = step
+                continue
             ok = self.compare(step, lab, pred)
             self.steps_done = step
             if not ok:
@@ -1162,6 +1217,7 @@ class Replay:
                 rec['tr'].set_allow(INF)
         self.loop.run_until_idle()
         self.pump()
+        self.monitor_quiet()
         if self.hasC and not self.cut:
             for s, rec in enumerate(self.src):
                 if rec['kind'] == 'stream' and not rec['eof'] and \
@@ -1169,6 +1225,7 @@ class Replay:
                     self.do_feedeof(s + 1)
                     self.loop.run_until_idle()
             self.pump()
+            self.monitor_drain_quiet()
         if self.hasB:
             if not self.e_closed and not self.cut:
                 if not self.e_eof:
@@ -1215,3 +1272,92 @@ def replay(world, case, consts, **kw):
     return {'divergences': rep.divergences, 'violations': rep.violations,
             'trig': rep.trig, 'steps': rep.steps_done, 'labels': rep.log,
             'failed': rep.failed}
+
+
+# ---------------------------------------------------------------------------
+# back pressure probes: a producer that writes whenever it can against a
+# consumer that does not take anything.  The monitor counts what the
+# driver-owned producer could get rid of / what sits in the channel buffer.
+
+PROBES = ['stream_target', 'pipe_to_process', 'file_source', 'stream_source',
+          'two_file_sources']
+
+
+def probe(world, name, role='client', W1=1, W2=2, CH=2, CL=1):
+    """-> [(clause, detail, defect situation)]"""
+    consts = {'HasB': name in ('stream_target', 'pipe_to_process'),
+              'HasC': name != 'stream_target', 'W1': W1, 'W2': W2, 'CH': CH,
+              'CL': CL, 'QH': _ORIG_Q[0], 'QL': _ORIG_Q[1], 'InDT': ['x'],
+              'OutDT': ['x', 'y'] if name == 'two_file_sources' else ['x']}
+    if name == 'two_file_sources':
+        role = 'server'
+    rep = Replay(world, [], consts, role=role)
+    out = []
+    loop = world.loop
+    QH = consts['QH']
+    try:
+        if name in ('stream_target', 'pipe_to_process'):
+            if name == 'stream_target':
+                rep.do_redirb('x', 'stream', True, 'x', True, 'w')
+                rep.tg[0]['tr'].set_allow(0)
+                bound = 1 + QH + W1
+            else:
+                rep.do_redirb('x', 'proc', True, 'x', True, 'w')
+                bound = W2 + CH + 1 + W1
+            loop.run_until_idle()
+            sent = 0
+            for _ in range(bound + 12):
+                rep.do_emit('x')
+                # everything moves except towards the consumer K
+                for _i in range(6):
+                    loop.run_until_idle()
+                    for w in ('EB', 'BE', 'KC'):
+                        if w in rep.wq and rep.wq[w][0]:
+                            rep.deliver(w, 1)
+                loop.run_until_idle()
+                if rep.E.chan.get_write_buffer_size():
+                    break
+                sent += 1
+            if sent > bound:
+                out.append(('backpressure',
+                            f'{name}: the producer got rid of {sent} chunks '
+                            f'while the consumer took '
+                            f'{1 if name == "stream_target" else 0} (bound '
+                            f'{bound}: window {W1}, queue / buffer limits)',
+                            'none'))
+        else:
+            n = 40
+            if name == 'stream_source':
+                rep.do_redirc('x', 'stream', False, 0)
+                for _ in range(n):
+                    rep.do_feed(1)
+                    loop.run_until_idle()
+                bound = CH + 1
+            elif name == 'file_source':
+                rep.do_redirc('x', 'file', False, n)
+                bound = CH + 1
+            else:
+                rep.do_redirc('y', 'file', False, n)
+                rep.do_redirc('x', 'file', False, n)
+                bound = CH + 2
+            loop.run_until_idle()
+            worst = rep.C.channel.get_write_buffer_size()
+            # the consumer takes one window at a time
+            for _ in range(6):
+                rep.deliver('CK', W2)
+                loop.run_until_idle()
+                rep.deliver('KC', 9)
+                loop.run_until_idle()
+                worst = max(worst, rep.C.channel.get_write_buffer_size())
+            if worst > bound * L:
+                out.append(('backpressure',
+                            f'{name}: {worst // L} chunks buffered in the '
+                            f'channel of C (high water {CH})',
+                            'resume_while_paused'
+                            if name == 'two_file_sources' else 'none'))
+            excs = loop.exceptions[rep.n_exc:]
+            if excs or rep.cc['conn'].is_closed():
+                out.append(('no-crash', f'{name}: internal error', 'none'))
+    finally:
+        rep.shut()
+    return out
